@@ -200,7 +200,7 @@ impl Rng for ThreadRng {
 pub fn rand_rng() -> (r: ThreadRng) ensures !r.det() { unimplemented!() }   // rule R10: rand::rng()
 
 // ------------------------------------------------------------------ oxmpl trait contracts (assumptions on user-supplied parameters)
-pub trait State: Sized {
+pub trait State {
 }
 // faithful Clone for user state types (assumption; explicit calls)
 pub axiom fn axiom_state_clone<S: State + Clone>(a: S, b: S) requires cloned(a, b) ensures a == b;
